@@ -110,6 +110,13 @@ for t in ['float', 'double']:
                                    vars=dict(v0bits='v0bits', v1bits='v1bits', v2bits='v2bits', n='n')),
                      wip=True, **PW))
 
+# 4b. page writer null counter across reset / add_values (page-header Statistics.null_count)
+JOBS.append(dict(name='c16_pw_null_count', entry='h_pw_null_count', loop_contracts=False, unwind=18, object_bits=11,
+                 defines=['CQV_PW=0', 'CQV_STATS_EXACT=8', 'CQV_PW_NULLS=1'], level='bounded',
+                 bound='page reset, then 1..2 add_values calls of 0..4 rows each, max_def_level 0..3',
+                 functions=['carquet_page_writer_reset', 'carquet_page_writer_add_values', 'carquet_page_writer_null_count'],
+                 est_s=30, wip=False, **PW))
+
 # 5. helpers: statistics_compare, range_overlaps (statistics.c), page_might_match (page_index.c): loop-free lemmas
 for t in ['i32', 'i64', 'float', 'double']:
     JOBS.append(dict(name='c16_stats_compare_%s' % t, entry='h_stats_compare', loop_contracts=False, defines=['CQV_BT=%d' % BT[t], 'CQV_STATS_EXACT=8'],
